@@ -143,7 +143,10 @@ Reject ==
   /\ why' = Diagnose
   /\ UNCHANGED <<vars, tid, pos, rem>>
 
-TraceNext == (Live /\ Progress) \/ Reject
+\* one named disjunct per trace action, so that TLC's -coverage reports how often each one consumed events
+LStart == Live /\ TStart       LEnd == Live /\ TEnd         LAcquire == Live /\ TAcquire   LJoin == Live /\ TJoin
+LLeave == Live /\ TLeave       LRelease == Live /\ TRelease LTick == Live /\ TTick         LFinish == Live /\ TFinish
+TraceNext == LStart \/ LEnd \/ LAcquire \/ LJoin \/ LLeave \/ LRelease \/ LTick \/ LFinish \/ Reject
 
 TraceSpec == TraceInit /\ [][TraceNext]_tvars
 
